@@ -148,7 +148,9 @@ class Repository(object):
 
     def push(self, name):
         try:
-            self.cmd('git push --set-upstream origin ' + name)
+            # several branches may be given (e.g. all the branches of the
+            # queue): they must be accepted or refused together
+            self.cmd('git push --atomic --set-upstream origin ' + name)
         except CommandError as err:
             raise PushFailedException(name) from err
 
